@@ -65,7 +65,9 @@ func (d *ExpoDom) Name() string { return "exponent/monomial (E7)" }
 func (d *ExpoDom) IsAtom(t types.Type) bool {
 	return isNamed(t, load.FieldPath, "Element") || isNamed(t, load.RootPath, "Scalar")
 }
-func (d *ExpoDom) ZeroAtom(t types.Type) Val { return Top{"zero value of " + t.String() + " (not a monomial)"} }
+func (d *ExpoDom) ZeroAtom(t types.Type) Val {
+	return Top{"zero value of " + t.String() + " (not a monomial)"}
+}
 func (d *ExpoDom) BinOp(in *Interp, op token.Token, x, y Val, xt types.Type, pos ssa.Instruction) Val {
 	in.Undecided(pos, "E7 has no transfer function for %T %s %T", x, op, y)
 	return nil
@@ -78,8 +80,10 @@ func (d *ExpoDom) Convert(in *Interp, x Val, from, to types.Type, pos ssa.Instru
 	in.Undecided(pos, "E7 cannot convert %T", x)
 	return nil
 }
-func (d *ExpoDom) Branch(in *Interp, cond Val, site *ssa.If) (bool, bool, bool) { return false, false, false }
-func (d *ExpoDom) Assume(in *Interp, cond Val, truth bool, site *ssa.If)         {}
+func (d *ExpoDom) Branch(in *Interp, cond Val, site *ssa.If) (bool, bool, bool) {
+	return false, false, false
+}
+func (d *ExpoDom) Assume(in *Interp, cond Val, truth bool, site *ssa.If) {}
 
 func (d *ExpoDom) Call(in *Interp, site ssa.Instruction, fn *ssa.Function, args []Val) ([]Val, bool) {
 	if !in.P.InRepo(fn) {
